@@ -137,7 +137,12 @@ func genROM(seed int64) []byte {
 		case 9:
 			// HALT, with the timer interrupt enabled and due within 64 cycles (IE may have been cleared above: an idle
 			// program exercises nothing)
-			emit(0x3e, 0x05, 0xe0, 0xff, 0x3e, 0x05, 0xe0, 0x07, 0x3e, 0xf0+rng.Intn(16), 0xe0, 0x05, 0x76)
+			if rng.Intn(3) == 0 {
+				// the same with the master enable clear: the CPU resumes without a dispatch, EI lets it happen afterwards
+				emit(0xf3, 0x3e, 0x05, 0xe0, 0xff, 0x3e, 0x05, 0xe0, 0x07, 0x3e, 0xf0+rng.Intn(16), 0xe0, 0x05, 0x76, 0xfb)
+			} else {
+				emit(0x3e, 0x05, 0xe0, 0xff, 0x3e, 0x05, 0xe0, 0x07, 0x3e, 0xf0+rng.Intn(16), 0xe0, 0x05, 0x76)
+			}
 		case 10:
 			emit(0x3e, rng.Intn(256), 0xe0, 0x0f) // IF
 		case 11, 12:
